@@ -66,8 +66,10 @@ def disable_message_validation(ignore=False):
     """
     if not ignore:
         token = _VALIDATION_ENABLED.set(False)
-        yield
-        _VALIDATION_ENABLED.reset(token)
+        try:
+            yield
+        finally:
+            _VALIDATION_ENABLED.reset(token)
     else:
         yield  # dummy context
 
